@@ -550,8 +550,15 @@ fn run_case_inner(rng: &mut Rng, sc: &Scenario, cfg: &RunCfg, model: &mut Model,
             }
             _ => {}
         }
-        // (C04) region / frame of every device write
-        if let Some(pre) = &pre_image {
+        // (C04) region / frame of every device write.  C04 is about what a call writes relative to the medium; after a
+        // FAILED WRITE the one-block cache still holds the block as the failed call wanted it (the crate does not
+        // invalidate it), so a later read-modify-write of that block legitimately carries those bytes along: the
+        // byte-frame part of the oracle is meaningful only as long as no device write has failed in this run.
+        let frame_ok = sess.disk.write_fault_hits() == 0;
+        if !frame_ok && pre_image.is_some() {
+            rep.count("frame-oracle:suspended-after-failed-write");
+        }
+        if let (Some(pre), true) = (&pre_image, frame_ok) {
             let mut cur = pre.clone();
             for (idx, blk) in &out.writes {
                 rep.oracle_checks += 1;
@@ -1557,9 +1564,16 @@ pub fn c11(ctx: &Ctx) -> Report {
     let mut rng = Rng::new(ctx.seed ^ 0xC11);
     let n = budget(ctx, 8, 150);
     let mut sweeps = 0u64;
+    let only_k: Option<usize> = std::env::var("VERIF_ONLY_K").ok().and_then(|x| x.parse().ok());
     for k in 0..n {
         let o = ScOpts { fat32: Some(k % 2 == 0), bpc_choices: vec![1, 2], small_root: k % 3 == 2, keep_free: if k % 4 == 3 { Some(vec![2, 6]) } else { None }, limits: Some((4, 4, 1)), ..Default::default() };
         let sc = make_scenario(&mut rng, &o);
+        if let Some(m) = only_k {
+            // development aid: stop after case m (the cases before it are run so that the random stream is the same)
+            if k > m {
+                break;
+            }
+        }
         // 1) a fault-free history
         // namespace-heavy and data-heavy (long reads over multi-cluster files) histories alternate; the
         // third kind is a fixed script: one read call over a whole fragmented multi-cluster file, a read
@@ -1583,7 +1597,21 @@ pub fn c11(ctx: &Ctx) -> Report {
         if !base.clean {
             continue;
         }
-        cfg.retry_expect = Some(base.outcomes.iter().map(|o| o.res.clone()).collect());
+        // the fault-free answers the retry oracle compares with come from a SCRIPTED fault-free run of the same
+        // operations: a scripted run advances the clock per step in a fixed way, a generated one draws it from
+        // the random stream, so the two give different time stamps for entries created on the way
+        let expect = {
+            let mut cfg1 = cfg.clone();
+            cfg1.script = Some(base.ops.clone());
+            let mut tmp = Report::new("expect");
+            let mut r = Rng::new(1);
+            let b2 = run_case(&mut r, &sc, &cfg1, &mut model, &mut tmp, "expect");
+            if b2.ops.len() != base.ops.len() {
+                continue;
+            }
+            b2
+        };
+        cfg.retry_expect = Some(expect.outcomes.iter().map(|o| o.res.clone()).collect());
         // 2) the same history with a failure at every single device-call index
         let mut points: Vec<(usize, u64)> = Vec::new();
         for (i, &calls) in base.device_calls.iter().enumerate() {
@@ -1658,10 +1686,15 @@ pub fn kf_e5_name(rep: &mut Report, rng: &mut Rng, model: &mut Model) {
     let l = sess.exec(&Op::List(d));
     rep.cases += 1;
     rep.oracle_checks += 1;
-    let shown = l.res.contains("e54243202020202054585420") || l.res.to_lowercase().contains("e5424320202020205458");
-    if c.is_ok() && !shown {
+    // on the medium the name's first byte is 0x05 (the FAT specification's substitute for 0xE5); the file must be
+    // listed, found under its name again, readable, and a second create of the name must be refused
+    let shown = l.res.to_lowercase().contains("0542432020202020545854");
+    let found = sess.exec(&Op::Find(d, name.clone()));
+    let again = sess.exec(&Op::OpenFile(d, name.clone(), Mode::ReadWriteCreate));
+    let back = match sess.exec(&Op::OpenFile(d, name.clone(), Mode::ReadOnly)).handle() { Some(h) => sess.exec(&Op::Read(h, 10)).res, None => "not opened".into() };
+    if c.is_ok() && !(shown && found.is_ok() && again.res == "err FileAlreadyExists" && back == "ok b 01020304") {
         rep.violation("impl-vs-spec", "name-starting-0xE5-invisible", &format!("a file created as {:?}, written and closed successfully, is not in the directory listing (its first name byte 0xE5 marks the slot as deleted)", name),
-            J::obj(vec![("ops", J::Arr(vec![J::s("open_file <U+00E5>BC.TXT create"), J::s("write 4 bytes"), J::s("close_file => ok"), J::s(format!("list => {}", truncate(&l.res, 200)))]))]));
+            J::obj(vec![("ops", J::Arr(vec![J::s("open_file <U+00E5>BC.TXT create"), J::s("write 4 bytes"), J::s("close_file => ok"), J::s(format!("list => {}", truncate(&l.res, 200))), J::s(format!("find => {}", truncate(&found.res, 80))), J::s(format!("create again => {}", again.res)), J::s(format!("open + read => {}", truncate(&back, 40)))]))]));
     }
     let _ = model;
 }
@@ -1720,7 +1753,26 @@ pub fn max_file_size_case(rep: &mut Report, prop: &str) {
                 J::obj(vec![("property", J::s(prop.to_string())), ("ops", J::Arr(vec![J::s("image: FAT32, 64 KiB clusters, BIG.BIN of 4294967285 bytes on a 65536-cluster chain"), J::s("open_file BIG.BIN ReadWriteAppend"), J::s(format!("write 20 bytes => {}", w.res)), J::s(format!("length => {}", len.res)), J::s(format!("seek 4294967285; read 20 => {}", truncate(&back, 80)))]))]));
         }
     }
-    // a write that does fit must still work: fresh session, 10 bytes
+    // embedded-io `seek` on this > 2 GiB file: every target inside the file is a legitimate seek, also when the
+    // relative offset does not fit an i32 (positions are u32, `SeekFrom::Current` carries an i64)
+    if prop == "C01" {
+        let flen: i64 = match sess.exec(&Op::Length(f)).res.strip_prefix("ok n ").and_then(|x| x.parse().ok()) { Some(n) => n, None => return };
+        for (start, delta) in [(0i64, 1i64 << 31), (0, 3_000_000_000), (flen, -(1i64 << 31) - 1), (10, (1i64 << 31) + 5), (flen, -flen), (5, 7), (flen - 1, 1), (0, flen + 1), (3, -4)] {
+            if sess.exec(&Op::IoSeekStart(f, start as u64)).res != format!("ok n {start}") {
+                continue;
+            }
+            let o = sess.exec(&Op::IoSeekCur(f, delta));
+            rep.ops += 2;
+            rep.oracle_checks += 1;
+            rep.count("io-seek:big-file");
+            let target = start + delta;
+            let want = if (0..=flen).contains(&target) { format!("ok n {target}") } else { "err InvalidOffset".to_string() };
+            if o.res != want {
+                rep.violation("impl-vs-spec", "io-seek-current-refused", &format!("`seek(SeekFrom::Current({delta}))` at offset {start} of a {flen}-byte file returned `{}`; the target {target} is {} the file, so the byte-array cursor answers `{want}`", o.res, if (0..=flen).contains(&target) { "inside" } else { "outside" }),
+                    J::obj(vec![("property", J::s(prop.to_string())), ("ops", J::Arr(vec![J::s("image: FAT32, 64 KiB clusters, BIG.BIN on a 65536-cluster chain, opened ReadWriteAppend"), J::s(format!("io_seek_start {start}")), J::s(format!("io_seek_cur {delta} => {}", o.res))]))]));
+            }
+        }
+    }
     let _ = sess.exec(&Op::CloseFile(f));
 }
 
